@@ -43,7 +43,7 @@ func cloneRes(r *protocol.MembershipResult) *protocol.MembershipResult {
 }
 
 func RunC02(c *lib.Ctx) {
-	c.Rule = "case = one candidate answer (queried digest, answer fields, audit paths) assembled by an adversarial generator from genuine answers of seeded logs and of forks (strategies: single-field edits, Exists flips, version triples, key substitution, shortcut-leaf replay for never-added digests sharing a member's prefix, paths of other keys/versions, dropped entries, cross-log splices, honest absence answers), sent through the JSON wire form and the real verifier against the authentic snapshots the answer names (history digest of QueryVersion + hyper digest of CurrentVersion, and the AutoVerify pairing); an ACCEPTED candidate must claim existence of a digest really inserted at ActualVersion <= QueryVersion; non-trivial = candidate differs from every genuine answer; distinct by (strategy, accepted?, log shape)."
+	c.Rule = "case = one candidate answer (queried digest, answer fields, audit paths) assembled by an adversarial generator from genuine answers of seeded logs and of forks (strategies: single-field edits, Exists flips, version triples, key substitution, shortcut-leaf replay for never-added digests sharing a member's prefix, paths of other keys/versions, dropped entries, cross-log splices, over-long (glued) and shortened audit-path entries combined with version fields that cut the leaf off, honest absence answers), sent through the JSON wire form and the real verifier against the authentic snapshots the answer names (history digest of QueryVersion + hyper digest of CurrentVersion, the AutoVerify pairing, and one single snapshot for both trees at each version the answer names and at the last version); an ACCEPTED candidate must claim existence of a digest really inserted at ActualVersion <= QueryVersion; non-trivial = candidate differs from every genuine answer; distinct by (strategy, accepted?, log shape)."
 	c.Assume = []string{"ground truth = the harness's record of which digest was inserted at which version", "SHA-256 collision resistance (no collision-based forgeries attempted)", "authentic snapshots = those issued by the implementation for versions that exist"}
 	nlogs := c.Q(24, 300)
 	r0 := c.Rand("logs")
@@ -97,8 +97,11 @@ func RunC02(c *lib.Ctx) {
 		var absent [][]byte
 		absent = append(absent, p.ds[n+1], p.ds[n+2])
 		twinOf := map[string][]byte{}
-		for k := 0; k < 4; k++ {
+		for k := 0; k < 7; k++ {
 			m := members[r.Intn(n)]
+			if k >= 4 { // members of the upper half of the log: the ones a lowered CurrentVersion can cut off
+				m = members[n-1-r.Intn((n+1)/2)]
+			}
 			h := l.RY.ShortcutHeight(m)
 			if h <= 0 {
 				continue
@@ -284,6 +287,107 @@ func RunC02(c *lib.Ctx) {
 				add("shortcut-leaf-replay(exists=false)", t, x)
 			}
 		}
+		// S10: over-long audit-path entries. Node hashes are taken over the plain concatenation of the children, and
+		// entries carry no length: the 64-byte entry L||R under a partial node H(entry||pos) equals the genuine inner
+		// node H(L||R||pos). Combined with version fields that make the replay cut the leaf's subtree off (an index
+		// above the replayed version), the recomputed root can be authentic without ever using the queried digest.
+		gkey := func(i uint64, h uint16) string { return fmt.Sprintf("%d|%d", i, h) }
+		glued := func(idx, cv, T uint64) map[string]hashing.Digest {
+			out := map[string]hashing.Digest{}
+			h := uint16(bitlen(cv))
+			i := uint64(0)
+			for h > 0 {
+				ri := i + uint64(1)<<(h-1)
+				if idx < ri {
+					if ri <= T {
+						out[gkey(ri, h-1)] = l.RH.Node(ri, h-1, T)
+					}
+					h--
+					continue
+				}
+				if ri > cv { // the replay drops the right subtree (and the leaf) here
+					e := append([]byte{}, l.RH.Node(i, h-1, T)...)
+					if ri <= T {
+						e = append(e, l.RH.Node(ri, h-1, T)...)
+					}
+					out[gkey(i, h-1)] = e
+					return out
+				}
+				out[gkey(i, h-1)] = l.RH.Node(i, h-1, T)
+				i, h = ri, h-1
+			}
+			return nil // the leaf is reached: nothing is cut off
+		}
+		for ts, m := range twinOf {
+			t := []byte(ts)
+			mv := l.Latest[string(m)]
+			g := genuine(l, m, cur)
+			if g == nil {
+				continue
+			}
+			var lows []uint64
+			for cv := uint64(0); cv < mv; cv++ {
+				if bitlen(cv) == bitlen(cur) {
+					lows = append(lows, cv)
+				}
+			}
+			for k := 0; k < 6 && len(lows) > 0; k++ {
+				cv := lows[r.Intn(len(lows))]
+				if k == 0 {
+					cv = lows[len(lows)-1]
+				}
+				hp := glued(mv, cv, cur)
+				if hp == nil {
+					continue
+				}
+				for _, who := range [][]byte{t, m} {
+					// (a) the three version fields as an answer names them, with a lowered CurrentVersion
+					x := cloneRes(g)
+					x.KeyDigest = append(hashing.Digest{}, who...)
+					x.ActualVersion, x.QueryVersion, x.CurrentVersion = mv, cur, cv
+					x.History = hp
+					add("glued-entry+lowered-current-version", who, x)
+					// (b) the same path under a lowered QueryVersion (refused by the version guard as long as it is the replayed one)
+					x = cloneRes(x)
+					x.QueryVersion, x.CurrentVersion = cv, cur
+					add("glued-entry+lowered-query-version", who, x)
+					x = cloneRes(x)
+					x.QueryVersion, x.CurrentVersion = cv, cv
+					add("glued-entry+lowered-query-version", who, x)
+				}
+			}
+		}
+		// over-long and shortened entries inside otherwise genuine answers
+		for s := 0; s < c.Q(6, 12); s++ {
+			v := uint64(r.Intn(n))
+			d := l.RH.Digests[v]
+			g := genuine(l, d, cur)
+			if g == nil {
+				continue
+			}
+			for k := range g.History {
+				for k2 := range g.History {
+					if k != k2 && r.Intn(4) == 0 {
+						x := cloneRes(g)
+						x.History[k] = append(append(hashing.Digest{}, g.History[k]...), g.History[k2]...)
+						delete(x.History, k2)
+						add("history-entries-glued", d, x)
+					}
+				}
+				if r.Intn(3) == 0 {
+					x := cloneRes(g)
+					x.History[k] = x.History[k][:16+r.Intn(16)]
+					add("history-entry-shortened", d, x)
+				}
+			}
+			for k := range g.Hyper {
+				if r.Intn(40) == 0 {
+					x := cloneRes(g)
+					x.Hyper[k] = append(append(hashing.Digest{}, g.Hyper[k]...), g.Hyper[k]...)
+					add("hyper-entry-lengthened", d, x)
+				}
+			}
+		}
 		// S8: honest answers for absent digests, and edits of them
 		for _, a := range absent {
 			g := genuine(l, a, cur)
@@ -341,6 +445,14 @@ func RunC02(c *lib.Ctx) {
 					ps = append(ps, pairing{"auto-verify", s})
 				}
 			}
+			// one authentic snapshot for both trees (client.MembershipVerify with the snapshot of an add), at every version the answer names
+			seenS := map[uint64]bool{}
+			for _, sv := range []uint64{back.QueryVersion, back.CurrentVersion, back.ActualVersion, cur} {
+				if sv <= cur && !seenS[sv] {
+					seenS[sv] = true
+					ps = append(ps, pairing{fmt.Sprintf("single-snapshot@%s", whichVersion(sv, &back, cur)), &balloon.Snapshot{EventDigest: cd.Queried, HistoryDigest: l.Snaps[sv].HistoryDigest, HyperDigest: l.Snaps[sv].HyperDigest, Version: sv}})
+				}
+			}
 			for _, pg := range ps {
 				var ok bool
 				pan, _ := lib.Recover(func() { ok = proof.DigestVerify(hashing.Digest(cd.Queried), pg.snap) })
@@ -368,7 +480,7 @@ func RunC02(c *lib.Ctx) {
 						key := "C02:accepted-false-claim:" + classify(&back)
 						c.Violation(key, fmt.Sprintf("verifier accepted a false claim (strategy %s, pairing %s): the answer %s", cd.Strategy, pg.name, why), cs)
 					}
-				} else if cd.Strategy == "genuine" {
+				} else if cd.Strategy == "genuine" && pg.name == "history@QueryVersion+hyper@CurrentVersion" {
 					c.Violation("C02:genuine-rejected", "generator sanity: a genuine answer was rejected", nil)
 				}
 			}
@@ -384,6 +496,18 @@ func RunC02(c *lib.Ctx) {
 	if c.Counter("candidates_verified") == 0 && c.Violations() == 0 {
 		c.Inconclusive("no candidate was evaluated")
 	}
+}
+
+func whichVersion(sv uint64, r *protocol.MembershipResult, cur uint64) string {
+	switch sv {
+	case r.QueryVersion:
+		return "QueryVersion"
+	case r.CurrentVersion:
+		return "CurrentVersion"
+	case r.ActualVersion:
+		return "ActualVersion"
+	}
+	return "last"
 }
 
 // classify gives the stable class of an accepted false claim: which branch of the claim is false.
